@@ -233,6 +233,10 @@ func c11JudgeWorldDB(r *Result, cs c11Case, db *gorm.DB) {
 			}
 		}
 	}
+	if err != nil && !realPanic && c11F35Pattern(cs) && listed(c11F35) {
+		r.KnownFinding(c11F35, "Preload(clause.Associations, <inline condition with arguments>) on a model with relations in `embedded`-tagged structs: the finisher reports a driver error (conditions applied twice)")
+		return
+	}
 	bad := ""
 	if err != nil {
 		bad = "error: " + err.Error()
@@ -248,6 +252,60 @@ func c11JudgeWorldDB(r *Result, cs c11Case, db *gorm.DB) {
 	}
 	r.Violate(Violation{Kind: "e2e", Suite: "world", Input: cs, Observed: map[string]interface{}{"got": got, "verdict": bad}, Expected: want,
 		Note: "family " + cs.World.Family + ": every loaded parent must carry exactly the live children whose fk tuple equals its key tuple and that satisfy the condition"})
+}
+
+// ---- finding F35: Preload(clause.Associations, inline condition) x relations declared in `embedded`-tagged structs --------------
+
+const c11F35 = "F35-C11-associations-embedded-conds-twice"
+
+func (t *c11Table) hasEmb() bool {
+	for i := range t.Rels {
+		if t.Rels[i].Emb != "" {
+			return true
+		}
+	}
+	return false
+}
+
+func c11F35Pattern(cs c11Case) bool {
+	f := c11Families[cs.World.Family]
+	op := cs.Op
+	return f != nil && op.Kind == "query" && op.All && op.AllC.Kind != "" && op.AllC.Style != "scope" && f.table(op.Parent).hasEmb()
+}
+
+// per run: the listed witness still errors, the same call on a model without embedded relations does not, and the Lean model of
+// the conditions reaching preload (assocCondsReaching + inlineWellFormed) says the same
+func c11F35Probe(r *Result) {
+	run := func(fam string) error {
+		f := c11Families[fam]
+		w := c11ScaleWorld(f, 3, 7, nil)
+		w.idx = nil
+		cs := c11Case{World: w, Op: c11Op{Kind: "query", Parent: f.parentTables()[0].Name, Shape: "slice", All: true, AllC: c11Cond{Kind: "in", Set: []int{1, 2, 3}, Style: "inline"}}}
+		_, _, err := c11RunCase(cs)
+		return err
+	}
+	errD, errU := run("D"), run("U")
+	outs, lerr := AskLean([][]interface{}{{"assoc.conds", 1, []string{"n IN ?", "[1 2 3]"}, 1}, {"assoc.conds", 0, []string{"n IN ?", "[1 2 3]"}, 1}})
+	if lerr != nil {
+		r.Violate(Violation{Kind: "correspondence", Suite: "assoc-conds", Note: lerr.Error()})
+		return
+	}
+	var md, mu struct {
+		N  int  `json:"n"`
+		OK bool `json:"ok"`
+	}
+	_ = json.Unmarshal(outs[0], &md)
+	_ = json.Unmarshal(outs[1], &mu)
+	r.CorrCompared += 2
+	r.H("assoc-conds", fmt.Sprintf("embedded: real error=%v model well-formed=%v; top level: real error=%v model well-formed=%v", errD != nil, md.OK, errU != nil, mu.OK))
+	if (errD == nil) != md.OK || (errU == nil) != mu.OK {
+		r.Violate(Violation{Kind: "correspondence", Suite: "assoc-conds", Input: "Preload(clause.Associations, \"n IN ?\", []int{1, 2, 3}) on family D (relations in embedded structs) and family U (top level)",
+			Observed: fmt.Sprint("D: ", errD, " / U: ", errU), Expected: fmt.Sprint("model: D well-formed=", md.OK, " U well-formed=", mu.OK),
+			Note: "conditions reaching callbacks.preload through parsePreloadMap / preloadEntryPoint vs Lean Gorm.assocCondsReaching + inlineWellFormed"})
+	}
+	if errD != nil && listed(c11F35) {
+		r.KnownFinding(c11F35, "witness re-confirmed: "+errD.Error())
+	}
 }
 
 // the listed witness of F6b
@@ -270,8 +328,9 @@ func init() {
 		} else if tier == "search" {
 			worlds = 1500
 		}
-		fams := []string{"S", "C", "R", "N", "U", "E", "S", "R", "N", "C"}
+		fams := []string{"S", "C", "R", "N", "U", "E", "S", "R", "N", "C", "D"}
 		c11JudgeWorld(r, c11F6bWitness(), true) // dedicated probe of the listed finding F6b
+		c11F35Probe(r)
 		for i := 0; i < worlds && !expired(); i++ {
 			f := c11Families[fams[i%len(fams)]]
 			mode := 0
@@ -341,6 +400,7 @@ func init() {
 		defer closeFn()
 		c11JudgeFault(r, db, rec, cs)
 	}
+	replayers["C11/assoc-conds"] = func(r *Result, input json.RawMessage) { c11F35Probe(r) }
 	replayers["C11/world"] = func(r *Result, input json.RawMessage) {
 		var cs c11Case
 		if err := json.Unmarshal(input, &cs); err != nil {
